@@ -8,6 +8,8 @@ T5  recursion guard: tested before, set around, cleared after the body is checke
 T6  scoping: pushes and pops balance on accepting paths; every match clause is checked in its own scope
 T10 as_concrete_type looks every name a type mentions up (struct / enum names, consts used as array sizes) on every accepting path
 T13 struct literals / patterns: a duplicated field is reported and the search for missing fields lies on every accepting path
+T14 exhaustiveness: the sub-patterns of a struct pattern are aligned with the definition's fields by name (fields behind `..` are wildcards)
+T15 number / range patterns are compared with min() / max() of the matched number type on every accepting path
 T12 a block takes the type of its last statement only (assigned on the `index == len - 1` edge, or afresh for every statement)
 T11 max / min / + / - const expressions are only accepted for consts whose declared type is examined (numeric)
 T9  const expressions are checked against the consts defined before them (a local map filled in source order), never against the
@@ -998,5 +1000,111 @@ def rule_t13(ctx):
     return res
 
 
+def rule_t14(ctx):
+    """Exhaustiveness (`a refutable pattern in let or for` / a match that does not cover its type): when a struct pattern is
+    specialised, the sub-pattern of every field of the *definition* is looked up by name in the pattern (fields behind `..` match
+    anything); taking the pattern's own field list positionally mis-aligns the columns of the pattern matrix."""
+    from . import C09
+    res = RuleResult("T14", "exhaustiveness: the fields of a struct pattern are aligned with the fields of the definition by name")
+    fid = "check::specialize"
+    if not ctx.has_fn(fid):
+        raise AnchorMissing("T14: check::specialize not found")
+    sb = ctx.body(fid)
+    by_name = []
+    for body in C09.bodies_with_closures(ctx, fid):
+        for b, t in body.calls():
+            if t["func"].get("declared") not in ("std::cmp::PartialEq::eq", "std::cmp::PartialEq::ne") or "String" not in "".join(t["func"].get("substs") or []):
+                continue
+            sides = [ctx.lifted_trace(body, a) for a in t["args"]]
+            ctor_name = [i for i, sd in enumerate(sides) if any(f == fid and r == ("arg", 1) and tuple(p) == ("as Struct", "1", "[]", "0") for (f, r, p) in sd)]
+            if not ctor_name:
+                continue
+            other = sides[1 - ctor_name[0]]
+            ok = False
+            for (f, r, p) in other:
+                if any(x in ("as Struct", "as StructIgnoreRemaining") for x in p) and tuple(p[-3:]) == ("1", "[]", "0"):
+                    ok = True
+                ob = ctx.body(f)
+                if r[0] == "arg" and ob.fn["kind"] == "closure":
+                    site = ctx.closure_site(f)
+                    if site:
+                        pb, rv = site
+                        for bb, tt in pb.calls():
+                            if any(a["k"] in ("copy", "move") and any(rr[0] == "agg" and pb.blocks[rr[1]]["stmts"][rr[2]]["rv"] is rv for (rr, pp) in pb.trace(a["place"], through={})) for a in tt["args"][1:]):
+                                for (rr, pp) in pb.trace_operand(tt["args"][0]):
+                                    if any(x in ("as Struct", "as StructIgnoreRemaining") for x in pp):
+                                        ok = True
+            if ok:
+                by_name.append((body, b, t))
+    if by_name:
+        res.ok({"site": "line %d" % by_name[0][2]["sp"][1], "verdict": "the name of every definition field is compared with the names of the pattern's fields"})
+    else:
+        res.bad(Finding("T14", fid, "struct pattern fields taken positionally",
+                        "no comparison between the field names of the struct definition and of the pattern: with `..` (or another order) the sub-patterns end up in the "
+                        "wrong columns, so `S { b: true, .. }` + `S { a: false, .. }` counts as exhaustive and `S { b: true, .. }` + `S { b: false, .. }` does not", sb.fn["sp"]))
+    return res
+
+
+def _range_gates(ctx):
+    """Functions of check.rs in which an argument is compared with max() / min() of a number type (directly, or with the
+    range that was built from them)."""
+    gates = {}
+    for f in ctx.fns.values():
+        if not f.get("mir") or f["sp"][0] != "src/check.rs" or f["kind"] == "closure":
+            continue
+        body = ctx.body(f["id"])
+        names = {mir.last_seg(mir.callee(t) or "") for _, t in body.calls()}
+        for c in ctx.cg.closures_of.get(f["id"], ()):
+            names |= {mir.last_seg(mir.callee(t) or "") for _, t in ctx.body(c).calls()}
+        if "max" not in names:
+            continue
+        args_cmp = set()
+        for blk in body.blocks:
+            for st in blk["stmts"]:
+                if st["k"] == "assign" and st["rv"]["k"] == "binop" and st["rv"]["op"] in ("Lt", "Le", "Gt", "Ge"):
+                    for side in ("l", "r"):
+                        o = st["rv"][side]
+                        if o["k"] in ("copy", "move"):
+                            for (r, p) in body.trace(o["place"]):
+                                if r[0] == "arg" and not p:
+                                    args_cmp.add(r[1])
+        if args_cmp:
+            gates[f["id"]] = args_cmp
+    return gates
+
+
+def rule_t15(ctx):
+    """Number patterns are compared with the matched value bit by bit in the width of the matched type (the lowering cuts the
+    number down), and the exhaustiveness check works on the numbers as written: a number outside the type has to be refused."""
+    res = RuleResult("T15", "number and range patterns are compared with the bounds of the matched number type before they are accepted")
+    gates = _range_gates(ctx)
+    f = pat_tc(ctx)
+    body = ctx.body(f["id"])
+    for variant, fields in (("NumUnsigned", ["0"]), ("NumSigned", ["0"]), ("UnsignedInclusiveRange", ["0", "1"]), ("SignedInclusiveRange", ["0", "1"])):
+        succ = body.pruned_succ({(SELF1, ("0",)): variant})
+        region = body.reachable([0], succ=succ)
+        exits = [b for b in ok_exits(body) if b in region]
+        if len(region) == len(body.reachable([0])) or not exits:
+            raise AnchorMissing("T15: cannot isolate the %s arm of the pattern checker" % variant)
+        for fld in fields:
+            blocks = set()
+            for b in region:
+                t = body.term(b)
+                if not t or t["k"] != "call" or (mir.callee(t) or "") not in gates:
+                    continue
+                for i in gates[mir.callee(t)]:
+                    a = t["args"][i - 1]
+                    if a["k"] in ("copy", "move") and any(r == SELF1 and tuple(p[-2:]) == ("as " + variant, fld) for (r, p) in body.deep_sources(a, depth=2)):
+                        blocks.add(b)
+            wit = body.must_pass(blocks, exits=exits, succ=succ) if blocks else [0]
+            if wit:
+                res.bad(Finding("T15", f["id"], "%s pattern: number %s is not compared with the bounds of the matched type" % (variant, fld),
+                                "the pattern is accepted on a path on which its number never reaches a comparison with max() / min() of the matched number type: `256` matches "
+                                "0u8, and `0..=249` + `250..=300` counts as exhaustive for a u8 while 255 matches neither", f["sp"]))
+            else:
+                res.ok({"pattern": variant, "number": fld, "verdict": "range-checked against the matched type on every accepting path"})
+    return res
+
+
 def run(ctx):
-    return ctx.run_rules([rule_t1, rule_t2, rule_t3, rule_t4, rule_t5, rule_t6, rule_t7, rule_t8, rule_t9, rule_t10, rule_t11, rule_t12, rule_t13])
+    return ctx.run_rules([rule_t1, rule_t2, rule_t3, rule_t4, rule_t5, rule_t6, rule_t7, rule_t8, rule_t9, rule_t10, rule_t11, rule_t12, rule_t13, rule_t14, rule_t15])
